@@ -103,7 +103,7 @@ Section BitStruct.
       cbn [run_fields nones map wstruct_loop]. cbn [wmeta_of wm_bits wm_name wm_storage wm_align wm_isprim wm_default f_name f_bits f_ty bit_storage wb_type wb_rem wb_buf].
       cbn [fst snd]. assert (w =? 0 = false) as -> by lia. cbn [negb orb]. rewrite storage_refl. cbn [negb bind app]. rewrite !app_nil_r.
       cbn [fst] in Hl0. rewrite Hl0. cbn [enum_int bind].
-      unfold wb_write. cbn [wb_rem wb_type wb_buf]. assert (ssz * 8 - used =? 0 = false) as -> by lia. rewrite storage_refl. cbn [negb orb bind wb_type wb_rem wb_buf]. rewrite Hsz, Hle.
+      unfold wb_write. cbn [wb_rem wb_type wb_buf]. assert (ssz * 8 - used =? 0 = false) as -> by lia. rewrite storage_refl. cbn [negb orb bind wb_type wb_rem wb_buf]. rewrite Hsz, Hle. rewrite (fits_in_field v0 w ltac:(lia) Hv).
       assert (ssz * 8 - (ssz * 8 - used) <? 0 = false) as -> by lia. replace (ssz * 8 - (ssz * 8 - used)) with used by lia.
       rewrite (lor_disjoint buf v0 used ltac:(lia) Hb ltac:(lia)).
       assert (EB : buf + v0 * 2 ^ used + 2 ^ (used + w) * le_pack (map snd run) vs' = buf + 2 ^ used * le_pack (w :: map snd run) (v0 :: vs')).
@@ -197,7 +197,7 @@ Section BitStructBE.
       cbn [run_fields nones map wstruct_loop]. cbn [wmeta_of wm_bits wm_name wm_storage wm_align wm_isprim wm_default f_name f_bits f_ty bit_storage wb_type wb_rem wb_buf].
       cbn [fst snd]. assert (w =? 0 = false) as -> by lia. cbn [negb orb]. rewrite (storage_refl p al ssz Hsz). cbn [negb bind app]. rewrite !app_nil_r.
       cbn [fst] in Hl0. rewrite Hl0. cbn [enum_int bind].
-      unfold wb_write. cbn [wb_rem wb_type wb_buf]. assert (rem =? 0 = false) as -> by lia. rewrite (storage_refl p al ssz Hsz). cbn [negb orb bind wb_type wb_rem wb_buf]. rewrite Hsz, Hbe.
+      unfold wb_write. cbn [wb_rem wb_type wb_buf]. assert (rem =? 0 = false) as -> by lia. rewrite (storage_refl p al ssz Hsz). cbn [negb orb bind wb_type wb_rem wb_buf]. rewrite Hsz, Hbe. rewrite (fits_in_field v0 w ltac:(lia) Hv).
       assert (rem - w <? 0 = false) as -> by lia.
       assert (Hlor : Z.lor (q * 2 ^ rem) (Z.shiftl v0 (rem - w)) = q * 2 ^ rem + v0 * 2 ^ (rem - w)).
       { rewrite Z.shiftl_mul_pow2 by lia. apply lor_above; [lia|exact Hq|]. split; [apply Z.mul_nonneg_nonneg; [lia|apply Z.pow_nonneg; lia]|].
